@@ -363,6 +363,12 @@ func c10Main(args []string) error {
 			} else if i%8 == 1 {
 				n = 3 + rng.Intn(2)
 				src, bits = gmwBigLevel(n)
+			} else if i%8 == 5 {
+				// one AND level that needs more triples than the pool ever holds at rest (4160 words)
+				n = 2
+				w := 266240 + 64*(1+rng.Intn(60))
+				src = fmt.Sprintf("package main\n\nfunc main(a, b uint%d) (uint%d, uint64) {\n\tc := a & b\n\treturn c, uint64(c) & uint64(a)\n}\n", w, w)
+				bits = []int{w, w}
 			} else {
 				src, bits = gmwProgram(rng, n)
 			}
@@ -405,7 +411,9 @@ func c10Main(args []string) error {
 				if i > 0 {
 					tr.put(gmwBitEv{Ev: "reset", X: []int{}, Y: []int{}, A: []int{}, B: []int{}, C: []int{}, D: []int{}, E: []int{}, Z: []int{}, DO: []int{}, EO: []int{}})
 				}
-				checkBatches(res, r, n, rng, tr)
+				if i%8 != 5 {
+					checkBatches(res, r, n, rng, tr)
+				}
 				res.Sample = map[string]interface{}{"parties": n, "and_batches": len(r.events), "gates": circ.NumGates, "src": src}
 			}
 			if len(res.Viol) > 0 {
